@@ -23,18 +23,20 @@ broken rows is exactly what is reported.
 Status:
 * PROVED for every registered function (127 on the pinned tree), all rows outside `tagFailing`:
   `c18_cmd_field_unique`, `c18_selector_tag_ok`, `c18_elements_tag_ok`, `c18_roundtrip_cmd`
-  (repaired member, all nine shapes + three combinations), `c18_roundtrip_cmd_partial` (member as written,
-  the shapes without a delete filter).
+  (repaired member, all nine shapes + three combinations, EVERY choice of values: decided by the kernel for
+  five distinct tokens and lifted by the hand-proved naturality theorem `Spine.Cmd.roundtrip_map`),
+  `c18_roundtrip_cmd_partial` (member as written, the shapes without a delete filter).
 * REFUTED on the code as written: `c18_delete_refuted` (every delete selector / delete elements panics —
   defect flag `deleteByRef`, function_data_cmd.go:68,71) and `c18_roundtrip_cmd_refuted` (on every row of
   `tagFailing` the selectors / elements are silently dropped).
 * PROVED for every value of every type of the schema: `c18_decode_encode` with `c18_schema_wf`,
   `c18_schema_fragment`; `c18_norm_equiv` (the decoded value differs from the original only in absent
   versus empty lists).
-* NOT covered by a theorem: the values of the tokens (the builders are polymorphic in the value type and
-  cannot inspect it — a parametricity argument, not a Lean theorem); `TimePeriodType`'s custom JSON
-  (monitored by the harness; its arithmetic is C19); `encoding/json` itself (assumption A-json, tied by
-  the differential run `TestWire`/json).
+* NOT covered by a theorem: that the key-level wire model of `Spine.Cmd` is what `Spine.Json.encode` does
+  on the schema of `CmdType` (only the key lists are proved equal, `c18_tables_match_schema`; the JSON
+  keys of every built command are compared with the real text by the harness, exhaustively);
+  `TimePeriodType`'s custom JSON (monitored by the harness; its arithmetic is C19); `encoding/json`
+  itself (assumption A-json, tied by the differential run `TestWireJson`).
 -/
 namespace Spine.Props.C18
 open Spine.Json Spine.Generated Spine.Cmd
